@@ -121,7 +121,7 @@ CONFIGS = [
     {"hashseed": 31337, "block": []},
     {"hashseed": 99, "block": ["time_utils_cy", "scoreboard_cy"]},
 ]
-COUNTS = {"quick": {"count": 120, "wall": 100}, "thorough": {"count": 6000, "wall": 1600}}
+COUNTS = {"quick": {"count": 96, "wall": 100}, "thorough": {"count": 6000, "wall": 1600}}
 ASSUMPTIONS = [
     "baselines are taken in a forked child of a worker interpreter that has imported scriptplan but executed none of it, PYTHONHASHSEED=0, all extensions native, TZ=UTC, fixed clock",
     "a handle into which an injected cancellation fired is poisoned and not observed again (and the parser object is replaced); nothing else is excused",
